@@ -607,7 +607,7 @@ def exhaustive(cx):
     # ordered pairs of duplicate-free sequences; values with blanks and both quote characters, never the empty string (F122)
     s = tg.Schema("uollonly", [tg.SNode("leaflist", "ul", ty=tg.Ty("string"), userord=True)])
     vals = [b"a", b"b b", b"c'", b'd"', b"ee"]
-    for nk, mod in (((5, 4), (4, 1)) if thorough else ((4, 8), (3, 1))):
+    for nk, mod in (((5, 16), (4, 1)) if thorough else ((4, 8), (3, 1))):
         seqs = tg.all_nodup_seqs(nk)
         cases = [Case(s, [tg.DN(s.top[0], vals[k]) for k in x], [tg.DN(s.top[0], vals[k]) for k in y], "userord-llonly")
                  for ia, x in enumerate(seqs) for ib, y in enumerate(seqs) if mod == 1 or (ia * 7 + ib) % mod == 0]
@@ -616,7 +616,7 @@ def exhaustive(cx):
             process(cx, [s], cases[lo:lo + 6000], tag="xllonly%d.%d" % (nk, lo), laws=True, apply3=False, law_mod=3 if nk >= 5 else 1)
     # the class of Props.C06UO.apply_diff_userord_flat_kl: a module whose only node is a single-key user-ordered list, key-only
     s = tg.Schema("uoklonly", [tg.SNode("list", "ul", keys=["k"], userord=True, kids=[tg.SNode("leaf", "k", ty=tg.Ty("string"), iskey=True)])])
-    for nk, mod in (((5, 4), (4, 1)) if thorough else ((4, 8), (3, 1))):
+    for nk, mod in (((5, 16), (4, 1)) if thorough else ((4, 8), (3, 1))):
         seqs = tg.all_nodup_seqs(nk)
         cases = [Case(s, [tg.DN(s.top[0], None, [tg.DN(s.top[0].kids[0], vals[k])]) for k in x],
                       [tg.DN(s.top[0], None, [tg.DN(s.top[0].kids[0], vals[k])]) for k in y], "userord-klonly")
@@ -631,7 +631,7 @@ def exhaustive(cx):
     pairs = [(b"a", b"x"), (b"a", b"y y"), (b"b'", b"x"), (b'c"', b"y y"), (b"a", b"z'")]
     def inst2(k):
         return tg.DN(s.top[0], None, [tg.DN(s.top[0].kids[0], pairs[k][0]), tg.DN(s.top[0].kids[1], pairs[k][1])])
-    for nk, mod in (((5, 4), (4, 1)) if thorough else ((4, 12), (3, 1))):
+    for nk, mod in (((5, 16), (4, 1)) if thorough else ((4, 12), (3, 1))):
         seqs = tg.all_nodup_seqs(nk)
         cases = [Case(s, [inst2(k) for k in x], [inst2(k) for k in y], "userord-k2only")
                  for ia, x in enumerate(seqs) for ib, y in enumerate(seqs) if mod == 1 or (ia * 7 + ib) % mod == 0]
